@@ -99,7 +99,7 @@ prop('C03', units=['idx'], level='proof', relevant=r'^unit::index::',
                   'keeps Record::find_field / is_subclass_of from recursing forever. Not decided: handlers\' rowan navigation, salsa, '
                   'termination of find_field under the acyclicity it relies on (argued, not mechanised), hangs elsewhere.'),
      assumptions=IDX_ASSUME + ['SymbolMap::record_mut returns the record with the requested id (ghost rec_id_of); id_arena::Id equality is structural'])
-prop('C16', units=['idx', 'fs'], level='proof', relevant=r'^unit::(index|file_system|fsspec)::',
+prop('C16', units=['idx', 'fs', 'dl'], level='proof', relevant=r'^unit::(index|file_system|fsspec|document_link)::',
      explanation=('Unit FS: Verus proves on the real text of collect_sources that the work-list loop terminates (measure: files of the universe not yet visited, then queue length; '
                   'the universe of file ids the file system can hand out is ASSUMED finite), that the returned SourceRoot contains the root, is closed under the include maps stored '
                   'in the database and contains only files reachable from the root through them (BFS invariants with a path witness), and that an include statement is recorded in its '
@@ -107,7 +107,10 @@ prop('C16', units=['idx', 'fs'], level='proof', relevant=r'^unit::(index|file_sy
                   'Unit IDX: Verus proves on the real text that IndexCtx::push_file enters a file iff it is not yet in indexed_files and '
                   'records it, that Include::index only indexes a file it has entered, and that no indexing function ever removes a file from indexed_files; hence the '
                   'declarations of a file reached along several include paths (or through a cycle) are indexed once. '
-                  'Not decided: that the document_link / diagnostics handlers render the include map faithfully (rowan traversal in handlers).'),
+                  'Unit DL: the filter closure of ide::handlers::document_link::exec is moved into a function and proved: a link is produced for a node iff it is an include statement (with a path) '
+                  'whose id - IncludeId(SyntaxNodePtr::new(include.syntax())), the constructor list_includes uses - is recorded in the resolved include map, the link points to the recorded file and covers the path literal. '
+                  'Unit IDX also proves that an include statement with no entry in the map gets a diagnostic at the statement, in its file. Together with FS ("recorded iff it resolves, with the file it resolves to") '
+                  'this covers the link / not-found clause; one link per include node in document order is the assumed semantics of descendants().filter_map().collect().'),
      assumptions=IDX_ASSUME + ['FileId obeys vstd\'s HashSet key model',
                                'FS: the file system hands out ids from a finite, unchanging universe (false for an OS file system with `./` path aliases: see DESIGN, finding on path aliases)',
                                'FS: the path of a file has a parent directory; PathBuf::from_str never fails',
